@@ -21,12 +21,15 @@ def configs(tier):
     deg = 1 if tier == "quick" else 2
     B = 2 if tier == "quick" else 3
     out = [dict(kind=k, deg=deg, B=B) for k in ("ode", "statio", "nonstatio")]
+    out += [dict(kind=k, deg=1, B=2, inctor=True) for k in ("ode", "statio", "nonstatio")]
     out += [dict(kind=k, part="static") for k in ("ode", "statio", "nonstatio")]
     out.append(dict(kind="system_ode", deg=1, B=2))
     return out
 
 
-def build(kind, deg, B, masks="array", dk=None):
+def build(kind, deg, B, masks="array", dk=None, mask_vals=None):
+    """mask_vals: {term: (m_nn, m_theta, m_kappa)} (arrays, possibly tracers) -> the derivative keys are built from them with the
+    eq_params dict in the user's (non-alphabetical: theta before kappa) insertion order"""
     import jinns
     from jinns.parameters import Params
     from jinns.parameters._derivative_keys import DerivativeKeysODE, DerivativeKeysPDEStatio, DerivativeKeysPDENonStatio
@@ -35,6 +38,14 @@ def build(kind, deg, B, masks="array", dk=None):
     ot_theta = lambda i, o, p: o * p.eq_params["theta"]
     eqp = {"theta": jnp.array(0.7), "kappa": jnp.array(1.3)}
     allT = Params(nn_params=True, eq_params={"theta": True, "kappa": True})
+    def mk_dk(cls, terms):
+        d_ = {}
+        for t in terms:
+            m = mask_vals[t]
+            ep = {}
+            ep["theta"] = m[1]; ep["kappa"] = m[2]            # insertion order theta, kappa
+            d_[t] = Params(nn_params=m[0], eq_params=ep)
+        return cls(**d_)
     if kind == "ode":
         class Eq(ODE):
             def equation(self, t, u, params):
@@ -42,7 +53,7 @@ def build(kind, deg, B, masks="array", dk=None):
         u = mk_pinn(1, 1, "ODE", deg=deg, H=1, ot=ot_theta)
         params = Params(nn_params=u.init_params(), eq_params=eqp)
         terms = ("dyn_loss", "initial_condition", "observations")
-        dk = dk or DerivativeKeysODE(**{t: allT for t in terms})
+        dk = dk or (mk_dk(DerivativeKeysODE, terms) if mask_vals is not None else DerivativeKeysODE(**{t: allT for t in terms}))
         loss = LossODE(u=u, dynamic_loss=Eq(Tmax=1), initial_condition=(jnp.array(0.25), jnp.array([0.5])), derivative_keys=dk, params=params)
         obs = {"pinn_in": jnp.arange(1, B + 1).reshape(B, 1) * 0.125, "val": jnp.arange(1, B + 1).reshape(B, 1) * 0.25, "eq_params": {}}
         batch = ODEBatch(temporal_batch=jnp.arange(1, B + 1) * 0.2, obs_batch_dict=obs)
@@ -53,7 +64,7 @@ def build(kind, deg, B, masks="array", dk=None):
         u = mk_pinn(1, 1, "statio_PDE", deg=deg, H=1, ot=ot_theta)
         params = Params(nn_params=u.init_params(), eq_params=eqp)
         terms = ("dyn_loss", "norm_loss", "boundary_loss", "observations")
-        dk = dk or DerivativeKeysPDEStatio(**{t: allT for t in terms})
+        dk = dk or (mk_dk(DerivativeKeysPDEStatio, terms) if mask_vals is not None else DerivativeKeysPDEStatio(**{t: allT for t in terms}))
         loss = LossPDEStatio(u=u, dynamic_loss=Eq(Tmax=1), norm_samples=jnp.array([[0.3], [0.6]]), norm_int_length=jnp.array(1.5),
                              omega_boundary_fun=lambda dx: 0.5, omega_boundary_condition="dirichlet", derivative_keys=dk, params=params)
         obs = {"pinn_in": jnp.arange(1, B + 1).reshape(B, 1) * 0.125, "val": jnp.arange(1, B + 1).reshape(B, 1) * 0.25, "eq_params": {}}
@@ -65,14 +76,14 @@ def build(kind, deg, B, masks="array", dk=None):
         u = mk_pinn(2, 1, "nonstatio_PDE", deg=deg, H=1, ot=ot_theta)
         params = Params(nn_params=u.init_params(), eq_params=eqp)
         terms = ("dyn_loss", "norm_loss", "boundary_loss", "observations", "initial_condition")
-        dk = dk or DerivativeKeysPDENonStatio(**{t: allT for t in terms})
+        dk = dk or (mk_dk(DerivativeKeysPDENonStatio, terms) if mask_vals is not None else DerivativeKeysPDENonStatio(**{t: allT for t in terms}))
         loss = LossPDENonStatio(u=u, dynamic_loss=Eq(Tmax=1), norm_samples=jnp.array([[0.3], [0.6]]), norm_int_length=jnp.array(1.5),
                                 omega_boundary_fun=lambda t, dx: 0.5, omega_boundary_condition="dirichlet",
                                 initial_condition_fun=lambda x: 0.25 * x[0], derivative_keys=dk, params=params)
         obs = {"pinn_in": jnp.arange(1, 2 * B + 1).reshape(B, 2) * 0.125, "val": jnp.arange(1, B + 1).reshape(B, 1) * 0.25, "eq_params": {}}
         batch = PDENonStatioBatch(times_x_inside_batch=jnp.arange(1, 2 * B + 1).reshape(B, 2) * 0.2,
                                   times_x_border_batch=jnp.array([[[0.3, 0.3], [0.0, 1.0]]]), obs_batch_dict=obs)
-    if masks == "array":
+    if masks == "array" and mask_vals is None:
         loss = eqx.tree_at(lambda l: l.derivative_keys, loss, jax.tree.map(lambda b: jnp.asarray(b), loss.derivative_keys))
     return loss, params, batch, terms
 
@@ -82,6 +93,7 @@ def run(cfg, R):
     if cfg.get("part") == "static": return run_static(cfg, R)
     if kind == "system_ode": return run_system(cfg, R)
     deg, B = cfg["deg"], cfg["B"]
+    if cfg.get("inctor"): return run_inctor(cfg, R)
     loss, params, batch, terms = build(kind, deg, B, masks="array")
     loss_true0, _, _, _ = build(kind, deg, B, masks="python")
     dk_true = loss_true0.derivative_keys          # python-bool all-True masks; every other leaf is shared with `loss`
@@ -132,6 +144,45 @@ def run(cfg, R):
                [g for g in goals(A, O, wrong=True) if g[0].startswith("d total/d nn_params")][:1]
 
     R.check(name, tr, goals, twin_fn=twins, key_fn=lambda prog, g: f"{kind}:" + g.split("[")[0][:40])
+
+
+def run_inctor(cfg, R):
+    """the loss (and its derivative keys, eq_params dict in the user's insertion order) is constructed INSIDE the traced function
+    from symbolic mask values, and differentiated directly with jax.grad: declaration order of the mask dict is preserved"""
+    kind, deg, B = cfg["kind"], cfg["deg"], cfg["B"]
+    loss0, params, batch, terms = build(kind, deg, B, masks="python")
+    groups = ("nn_params", "theta", "kappa")
+    mv0 = {t: tuple(jnp.asarray(True) for _ in range(3)) for t in terms}
+    R.note(functions=["jinns.parameters._derivative_keys._set_derivatives (mask and parameter dicts in different key orders)"])
+
+    def f(mv, params, batch):
+        loss, _, _, _ = build(kind, deg, B, mask_vals=mv)
+        loss_true, _, _, _ = build(kind, deg, B, masks="python")
+        gtot = jax.grad(lambda p: loss.evaluate(p, batch)[0])(params)
+        gterm_true = {t: jax.grad(lambda p: loss_true.evaluate(p, batch)[1][t])(params) for t in terms}
+        return gtot, gterm_true
+    name = f"{kind}/constructed-in-trace"
+    tr = R.trace(name, f, (mv0, params, batch), key=f"{kind}:inctor:raises")
+    if tr is None: return
+
+    def gl(g):
+        return {"nn_params": flat_terms(g.nn_params), "theta": flat_terms(g.eq_params["theta"]), "kappa": flat_terms(g.eq_params["kappa"])}
+
+    def goals(A, O, wrong=False):
+        mv = A[0]
+        gtot, gtt = O
+        gt = gl(gtot); gtt = {t: gl(gtt[t]) for t in terms}
+        G = []
+        for gi, grp in enumerate(groups):
+            gj = gi if not wrong else {0: 0, 1: 2, 2: 1}[gi]
+            for k in range(len(gt[grp])):
+                want = tm.ssum([ite(mv[t][gj][()], gtt[t][grp][k], const(0, "Real")) for t in terms])
+                G.append((f"d total/d {grp}[{k}] == sum over terms whose key selects {grp} (mask dict in the user's key order)", eq(gt[grp][k], want)))
+        return G
+
+    def twins(A, O):
+        return [g for g in goals(A, O, wrong=True) if "d theta" in g[0]][:1]
+    R.check(name, tr, goals, twin_fn=twins, key_fn=lambda prog, g: f"{kind}:inctor:" + g.split("[")[0][:40])
 
 
 def run_static(cfg, R):
